@@ -2,6 +2,7 @@
 package lease_set2
 
 import (
+	"crypto/ed25519"
 	"encoding/binary"
 	"sort"
 	"strings"
@@ -13,6 +14,7 @@ import (
 	"github.com/go-i2p/common/lease"
 	"github.com/go-i2p/common/offline_signature"
 	sig "github.com/go-i2p/common/signature"
+	"github.com/go-i2p/crypto/types"
 	"github.com/go-i2p/logger"
 	"github.com/samber/oops"
 )
@@ -994,8 +996,6 @@ func determineSignatureType(dest destination.Destination, offlineSig *offline_si
 
 // createLeaseSet2Signature signs the LeaseSet2 data with the provided key.
 func createLeaseSet2Signature(signingKey interface{}, data []byte, sigType uint16) (sig.Signature, error) {
-	// This is a placeholder - actual signing would use the crypto library
-	// For now, we create a zero signature of the correct size
 	sigSize := offline_signature.SignatureSize(sigType)
 	if sigSize == 0 {
 		return sig.Signature{}, oops.
@@ -1004,20 +1004,50 @@ func createLeaseSet2Signature(signingKey interface{}, data []byte, sigType uint1
 			Errorf("unknown signature type: %d", sigType)
 	}
 
-	// TODO: Implement actual signing using the signingKey
-	// This would call into crypto/signature package to create real signatures
-	// For now, return an empty signature of the correct size
-	signatureData := make([]byte, sigSize)
+	// Without a signing key there is nothing to sign with: keep returning an
+	// all-zero placeholder of the correct size (callers that only need the
+	// structure, not a publishable lease set, pass nil).
+	if signingKey == nil {
+		signatureData := make([]byte, sigSize)
+		signature, err := sig.NewSignatureFromBytes(signatureData, int(sigType))
+		if err != nil {
+			return sig.Signature{}, oops.Errorf("failed to create signature: %w", err)
+		}
+		log.WithFields(logger.Fields{
+			"signature_type": sigType,
+			"signature_size": sigSize,
+			"data_size":      len(data),
+		}).Warn("Created placeholder signature - no signing key supplied")
+		return signature, nil
+	}
+
+	var signatureData []byte
+	switch key := signingKey.(type) {
+	case types.SigningPrivateKey:
+		signer, err := key.NewSigner()
+		if err != nil {
+			return sig.Signature{}, oops.Errorf("failed to create signer: %w", err)
+		}
+		signatureData, err = signer.Sign(data)
+		if err != nil {
+			return sig.Signature{}, oops.Errorf("failed to sign LeaseSet2: %w", err)
+		}
+	case ed25519.PrivateKey:
+		if len(key) != ed25519.PrivateKeySize {
+			return sig.Signature{}, oops.Errorf("invalid Ed25519 private key size: %d", len(key))
+		}
+		signatureData = ed25519.Sign(key, data)
+	default:
+		return sig.Signature{}, oops.
+			Code("unsupported_key_type").
+			Errorf("unsupported signing key type: %T", signingKey)
+	}
+
+	// NewSignatureFromBytes rejects a signature whose length does not match
+	// sigType, i.e. a key of the wrong kind for this destination/transient key.
 	signature, err := sig.NewSignatureFromBytes(signatureData, int(sigType))
 	if err != nil {
 		return sig.Signature{}, oops.Errorf("failed to create signature: %w", err)
 	}
-
-	log.WithFields(logger.Fields{
-		"signature_type": sigType,
-		"signature_size": sigSize,
-		"data_size":      len(data),
-	}).Warn("Created placeholder signature - implement actual signing")
-
 	return signature, nil
 }
